@@ -134,6 +134,29 @@ def enc_tree(root):
             children = [enc(c) for _, c in ks]
         if isinstance(s, RefToSchema):
             tgt = target(s.ref_to)
+            # the second route to the referent: the dereferencing properties of the reference (type / attributes / properties /
+            # items answer for the schema referred to).  Where they lead elsewhere than ref_to, or fail, that is what is reported.
+            r = s.ref_to
+            if r is not None and not isinstance(r, RefToSchema):
+                def outcome(f):
+                    try:
+                        return (0, f())
+                    except BaseException as ex:
+                        if isinstance(ex, (KeyboardInterrupt, SystemExit, MemoryError)):
+                            raise
+                        return (1, type(ex).__name__)
+                try:
+                    same = outcome(lambda: s.type) == outcome(lambda: r.type) and s.attributes is r.attributes
+                    if isinstance(r, ObjectSchema):
+                        same = same and s.properties is r.properties
+                    if isinstance(r, ArraySchema):
+                        same = same and s.items is r.items
+                except BaseException as ex:
+                    if isinstance(ex, (KeyboardInterrupt, SystemExit, MemoryError)):
+                        raise
+                    same = False
+                if not same:
+                    tgt = [[3001]]
         elif isinstance(s, DependsOnArraySchema):
             tgt = target(s.max_ref_to)
         else:
